@@ -177,6 +177,24 @@ pub fn check_cli(dict: &[WR], tag: &str) -> Option<(String, String)> {
             if rc == 0 {
                 return Err(("cli-bad-record-accepted".into(), "a record with one weight too many was accepted when --model-out was not given (exit 0)".into()));
             }
+            // other malformed records appended to the good dump: an empty word without weights, an empty quoted word
+            // without weights, a word without weights, a word with one weight too few
+            let good: String = {
+                let mut l = String::from("word,weights,comment\n");
+                for d in dict.iter() {
+                    let q = |s: &str| format!("\"{}\"", s.replace('"', "\"\""));
+                    l.push_str(&format!("{},{},{}\n", q(&d.word), q(&d.weights.iter().map(|x| x.to_string()).collect::<Vec<_>>().join(" ")), q(&d.comment)));
+                }
+                l
+            };
+            for (what, row) in [("an empty word without weights", ",,\n"), ("an empty quoted word without weights", "\"\",\"\",\"\"\n"), ("a word without weights", "zz,,\n"), ("a word with one weight too few", "zz,1 2,\n")] {
+                std::fs::write(&bad, format!("{good}{row}")).unwrap();
+                let _ = std::fs::remove_file(&mbad);
+                let (rc, _) = run_tool(&["--model-in", &min, "--replace-dict", &bad, "--model-out", &mbad]).unwrap_or_else(|e| machinery_error(&e));
+                if rc == 0 || std::path::Path::new(&mbad).exists() {
+                    return Err(("cli-bad-record-accepted".into(), format!("{what} was accepted (exit {rc}, output written: {})", std::path::Path::new(&mbad).exists())));
+                }
+            }
             let csv4 = format!("{dir}/dict4.csv");
             let (rc, _) = run_tool(&["--model-in", &min, "--dump-dict", &csv4, "--replace-dict", &bad]).unwrap_or_else(|e| machinery_error(&e));
             if rc == 0 {
@@ -307,7 +325,7 @@ pub fn run(tier: Tier) -> ! {
             }
         }
     });
-    for word in ["a", "ab", "あ", "あ𠀋", "aあ𠀋", "𠀋𠀋𠀋𠀋"] {
+    for word in ["", "a", "ab", "あ", "あ𠀋", "aあ𠀋", "𠀋𠀋𠀋𠀋"] {
         for n in 0..=7 {
             chk.eval(1);
             chk.nontrivial(1);
